@@ -99,9 +99,8 @@ theorem unknown_raises (T : Tables Code) (pos : Position) (k : Code)
        done)
     | skip
   -- accumulator
-  · obtain ⟨h1, h2⟩ := hk
-    simp [dispatch, dispatchC, accDispatch, classify, defaultRaise,
-      h1, h2]
+  · simp [dispatch, dispatchC, accDispatch, classify, defaultRaise,
+      hk]
   -- typeAlias
   · obtain ⟨h1, h2⟩ := hk
     simp [dispatch, dispatchC, typeDispatch, classify, defaultRaise,
@@ -134,9 +133,8 @@ theorem unknown_raises_strict (T : Tables Code) (pos : Position) (k : Code)
       hne]
   · simp [dispatch, dispatchC, stageDispatch, classify, defaultRaise,
       hk]
-  · obtain ⟨h1, h2⟩ := hk
-    simp [dispatch, dispatchC, accDispatch, classify, defaultRaise,
-      h1, h2]
+  · simp [dispatch, dispatchC, accDispatch, classify, defaultRaise,
+      hk]
   · obtain ⟨h1, h2⟩ := hk
     simp [dispatch, dispatchC, typeDispatch, classify, defaultRaise,
       h1, h2]
@@ -202,17 +200,31 @@ theorem updateNoMatchDispatch_ignored {c : NameClass} (h : updateNoMatchDispatch
       simp only [Bool.or_eq_true, not_or, Bool.not_eq_true] at h2
       exact ⟨h1, h2.1, h2.2⟩
 
+theorem accDispatch_ignored {c : NameClass} (h : accDispatch c = .ignored) :
+    c.groupChecked = true ∧ c.grouping = false ∧ c.groupInline = false := by
+  unfold accDispatch at h
+  split at h
+  · cases h
+  · split at h
+    · cases h
+    · rename_i h1 h2
+      simp only [Bool.not_eq_true', Bool.not_eq_false] at h1
+      simp only [Bool.or_eq_true, not_or, Bool.not_eq_true] at h2
+      exact ⟨h1, h2.1, h2.2⟩
+
 /-- **The structure ignores a name only in the listed ways**: a connective of
     `LOGICAL_OPERATOR_MAP` other than `$not` whose value is always truthy at the top level of a
     filter or of an `$elemMatch` query; `$ne` / `$nin` on a path that reaches no value (their operand is not
     looked at); an update operator that the pre-check lets through and the operator loop has no
-    branch for, when no document matches. -/
+    branch for, when no document matches; an accumulator that the pre-check lets through and
+    `_accumulate_group` has no branch for. -/
 theorem ignored_only_structurally (T : Tables Code) (pos : Position) (k : Code)
     (h : dispatch T pos k = .ignored) :
     (k ∈ T.logicalConst ∧ k ∈ T.logicalOps ∧ k ≠ cNot ∧
       (pos = .queryTop ∨ pos = .queryElemMatch)) ∨
     (pos = .queryFieldDeadEnd ∧ (k = cNe ∨ k = cNin)) ∨
-    (pos = .updateNoMatch ∧ k ∈ T.updateChecked ∧ k ∉ T.updaters ∧ k ∉ T.updateInline) := by
+    (pos = .updateNoMatch ∧ k ∈ T.updateChecked ∧ k ∉ T.updaters ∧ k ∉ T.updateInline) ∨
+    (pos = .accumulator ∧ k ∈ T.groupChecked ∧ k ∉ T.groupingMap ∧ k ∉ T.groupInline) := by
   cases pos <;> simp only [dispatch, dispatchC] at h
   case queryFieldDeadEnd =>
     right; left
@@ -220,7 +232,7 @@ theorem ignored_only_structurally (T : Tables Code) (pos : Position) (k : Code)
     simp only [classify, Bool.or_eq_true, beq_iff_eq] at this
     exact ⟨rfl, this⟩
   case updateNoMatch =>
-    right; right
+    right; right; left
     have := updateNoMatchDispatch_ignored h
     simp only [classify, List.contains_eq_mem, decide_eq_true_eq, decide_eq_false_iff_not] at this
     exact ⟨rfl, this⟩
@@ -253,7 +265,11 @@ theorem ignored_only_structurally (T : Tables Code) (pos : Position) (k : Code)
   case stage => unfold stageDispatch at h; split at h <;> cases h
   case exprProject | exprAddFields | exprMatchExpr | exprGroupId =>
     exact absurd h (exprDispatch_not_ignored _ _)
-  case accumulator => unfold accDispatch at h; split at h <;> cases h
+  case accumulator =>
+    right; right; right
+    have := accDispatch_ignored h
+    simp only [classify, List.contains_eq_mem, decide_eq_true_eq, decide_eq_false_iff_not] at this
+    exact ⟨rfl, this⟩
   case typeAlias =>
     unfold typeDispatch at h
     split at h
@@ -365,6 +381,35 @@ theorem siteRows_known_entries (known : List (Nat × Code)) (rows : List SiteRow
   simp only [siteEntriesOf, List.mem_flatMap] at he
   obtain ⟨r, hr, her⟩ := he
   exact siteRow_known_entries known r (List.all_eq_true.mp h r hr) e her
+
+theorem siteRow_empty_entries (known : List Nat) (r : SiteRow)
+    (h : r.emptyKnown known = true) :
+    ∀ e ∈ r.entries, (e.disp.raises = true → e.onEmpty ≠ .notProbed) ∧
+      (e.onEmpty = .silent → e.site ∈ known) := by
+  intro e he
+  simp only [SiteRow.emptyKnown, List.all_eq_true, Bool.and_eq_true, Bool.or_eq_true,
+    Bool.not_eq_true', decide_eq_true_eq, List.contains_eq_mem] at h
+  simp only [SiteRow.entries, List.mem_map] at he
+  obtain ⟨d, hdm, rfl⟩ := he
+  obtain ⟨h1, h2⟩ := h d hdm
+  constructor
+  · intro hr
+    rcases h1 with h1 | h1
+    · rw [hr] at h1; cases h1
+    · exact h1
+  · intro hs
+    rcases h2 with h2 | h2
+    · exact absurd hs h2
+    · exact h2
+
+theorem siteRows_empty_entries (known : List Nat) (rows : List SiteRow)
+    (h : rows.all (SiteRow.emptyKnown known) = true) :
+    ∀ e ∈ siteEntriesOf rows, (e.disp.raises = true → e.onEmpty ≠ .notProbed) ∧
+      (e.onEmpty = .silent → e.site ∈ known) := by
+  intro e he
+  simp only [siteEntriesOf, List.mem_flatMap] at he
+  obtain ⟨r, hr, her⟩ := he
+  exact siteRow_empty_entries known r (List.all_eq_true.mp h r hr) e her
 
 /-- at a site that follows its dispatcher (or raises), an unrecognised `$name` raises -/
 theorem site_unknown_raises (T : Tables Code) (e : SiteEntry)
